@@ -1,4 +1,5 @@
 import HG.Lemmas.Trace
+import HG.Model.Validate
 /-! # C12 — the events of every terminated run form a complete, well-nested span tree
 
 The grammar `Trace ao shape evs` (`HG/Lemmas/Trace.lean`) describes event lists:
@@ -587,5 +588,77 @@ example : C12Ex.render (evsOf (run bodySem .sync C12Ex.progCollide 0 [("v", .int
     [("RunStart", "r", "-"), ("NodeStart", "r/x#0", "r"), ("RouteDecision:END", "r/x!route#0", "r"),
      ("NodeEnd", "r/x#0", "r"), ("NodeStart", "r/x!route#0", "r"), ("NodeEnd", "r/x!route#0", "r"),
      ("RunEnd:completed", "r", "-")] := by decide
+
+/-! ## rejected `map` calls emit nothing (fixes 2299be1, 1fcc5cf, b2c6023)
+
+`MapChecked.rejected` carries no `MapOut`: no result, no log — hence no event, no shutdown, no node call. What remains to state is WHEN a
+call is rejected, and that an accepted call is exactly the map. -/
+
+/-- each of the four checks rejects, in the order the code applies them -/
+theorem map_rejects_no_slot (sem : Sem) (runner : Runner) (prog : Program) (root : Nat) (values : AL Val)
+    (mo : List Name) (mode : MapMode) (em : ErrMode) (cfg : RunCfg) (k : Int) (ep : Option Name) (hk : k < 1) :
+    mapChecked sem runner prog root values mo mode em cfg (some k) ep = .rejected (.valueError "max_concurrency") := by
+  have : limitOk (some k) = false := by simp [limitOk]; omega
+  simp [mapChecked, this]
+
+theorem map_rejects_absent_map_over (sem : Sem) (runner : Runner) (prog : Program) (root : Nat) (values : AL Val)
+    (mo : List Name) (mode : MapMode) (em : ErrMode) (cfg : RunCfg) (k : Option Int) (ep : Option Name)
+    (hk : limitOk k = true) (habs : absentMapOver values mo ≠ []) :
+    mapChecked sem runner prog root values mo mode em cfg k ep = .rejected (.missingInput (absentMapOver values mo)) := by
+  have : (absentMapOver values mo).isEmpty = false := by
+    cases h : absentMapOver values mo with
+    | nil => exact absurd h habs
+    | cons _ _ => rfl
+  simp [mapChecked, hk, this]
+
+theorem map_rejects_unknown_select (sem : Sem) (runner : Runner) (prog : Program) (root : Nat) (values : AL Val)
+    (mo : List Name) (mode : MapMode) (em : ErrMode) (cfg : RunCfg) (k : Option Int) (ep : Option Name) (e : VErr)
+    (hk : limitOk k = true) (habs : absentMapOver values mo = [])
+    (hsel : resolveRuntimeSelected (prog.getD root default) cfg.select = .error e) :
+    mapChecked sem runner prog root values mo mode em cfg k ep = .rejected e := by
+  simp only [List.getD_eq_getElem?_getD] at hsel
+  simp [mapChecked, hk, habs, hsel]
+
+theorem map_rejects_missing_input (sem : Sem) (runner : Runner) (prog : Program) (root : Nat) (values : AL Val)
+    (mo : List Name) (mode : MapMode) (em : ErrMode) (cfg : RunCfg) (k : Option Int) (ep : Option Name)
+    (selected : Option (List Name)) (l : List Name)
+    (hk : limitOk k = true) (habs : absentMapOver values mo = [])
+    (hsel : resolveRuntimeSelected (prog.getD root default) cfg.select = .ok selected)
+    (hval : validateInputs (prog.getD root default) (itemValues values mo) ep selected .warn = .error (.missingInput l)) :
+    mapChecked sem runner prog root values mo mode em cfg k ep = .rejected (.missingInput l) := by
+  simp only [List.getD_eq_getElem?_getD] at hsel hval
+  simp [mapChecked, hk, habs, hsel, hval]
+
+/-- an accepted call IS the map: whatever `mapChecked` ran is `map` on the same arguments (so every span-tree theorem about `map`
+applies), and a call is either rejected or run — never both, never partly -/
+theorem map_accepted_is_map (sem : Sem) (runner : Runner) (prog : Program) (root : Nat) (values : AL Val)
+    (mo : List Name) (mode : MapMode) (em : ErrMode) (cfg : RunCfg) (k : Option Int) (ep : Option Name) (out : MapOut)
+    (h : mapChecked sem runner prog root values mo mode em cfg k ep = .ran out) :
+    out = map sem runner prog root values mo mode em cfg ∧ limitOk k = true ∧ absentMapOver values mo = [] := by
+  unfold mapChecked at h
+  by_cases hk : limitOk k = true
+  · by_cases habs : (absentMapOver values mo).isEmpty = true
+    · simp only [hk, habs, Bool.not_true, Bool.false_eq_true, if_false] at h
+      have habs' : absentMapOver values mo = [] := by simpa using habs
+      refine ⟨?_, hk, habs'⟩
+      split at h
+      · cases h
+      · split at h
+        · cases h
+        · injection h with h; exact h.symm
+    · simp [hk, habs] at h
+  · simp [hk] at h
+
+/-- non-vacuity on the two-node DAG `a(x) → b(y)`: each rejection arises, and a well-formed call runs -/
+example (sem : Sem) : mapChecked sem .sync C12Ex.progDag 0 [("x", Val.mkLst [.int 1, .int 2])] ["x"] .zip .raise {} (some 0) .none
+    = .rejected (.valueError "max_concurrency") := map_rejects_no_slot _ _ _ _ _ _ _ _ _ _ _ (by decide)
+example (sem : Sem) : mapChecked sem .sync C12Ex.progDag 0 [("x", Val.mkLst [.int 1])] ["x", "w"] .zip .raise {} (some 2) .none
+    = .rejected (.missingInput ["w"]) := map_rejects_absent_map_over _ _ _ _ _ _ _ _ _ _ _ (by decide) (by decide)
+example (sem : Sem) : mapChecked sem .sync C12Ex.progDag 0 [("x", Val.mkLst [.int 1])] ["x"] .zip .raise { select := .names ["nope"] } .none .none
+    = .rejected (.configError "select") := map_rejects_unknown_select _ _ _ _ _ _ _ _ _ _ _ _ (by decide) (by decide) (by rfl)
+example (sem : Sem) : mapChecked sem .sync C12Ex.progDag 0 [("q", Val.mkLst [.int 1])] ["q"] .zip .raise {} .none .none
+    = .rejected (.missingInput ["x"]) := map_rejects_missing_input _ _ _ _ _ _ _ _ _ _ _ .none _ (by decide) (by decide) (by rfl) (by rfl)
+example : ∃ out, mapChecked bodySem .sync C12Ex.progDag 0 [("x", Val.mkLst [.int 1, .int 2])] ["x"] .zip .raise {} (some 1) .none = .ran out ∧
+    out.results.length = 2 := ⟨_, rfl, by decide⟩
 
 end HG.C12
